@@ -33,7 +33,7 @@ and “Parameters”: Pass State, Task State, and Parallel State.
 import sys
 assert sys.version_info >= (3, 0)  # Bomb out if not running Python3
 
-import hashlib, random, re, uuid
+import copy, hashlib, random, re, uuid
 
 """
 ASL paths use JSONPath.
@@ -218,7 +218,9 @@ def apply_resultpath(input, result, path="$"):
         m[1:-1] if len(m) > 1 and m[0] == m[-1] and m[0] in "'\"" else m
         for m in matches
     ]
-    return update_path(input, matches, result)
+    # The result may be (part of) the input itself, e.g. a Pass state without
+    # Result; copy it so that the output cannot contain itself.
+    return update_path(input, matches, copy.deepcopy(result))
 
 def evaluate_payload_template(input, context, template):
     """
